@@ -127,9 +127,21 @@ theorem malformed_iff (id : Identity) :
 
 /-! ### the model computes the specification -/
 
+theorem verifyIdentities_nil (chain : List DN) : verifyIdentities [] chain = false := by
+  simp [verifyIdentities, collect]
+
+/-- without an applicable statement there is no identity that could decide -/
+theorem identities_of_not_applicable (i : Input) (h : applicable i = none) : i.identities = [] := by
+  simp [Input.identities, h]
+
+theorem run_applicable (i : Input) (s : Statement) (h : applicable i = some s) : run i = process i := by
+  simp [run, h]
+
 theorem run_native (i : Input) (h : nativeCheck i = true) :
     (run i).pass = verifyIdentities i.identities i.chain := by
-  simp [run, h]
+  cases ha : applicable i with
+  | none => simp [run, ha, identities_of_not_applicable i ha, verifyIdentities_nil]
+  | some s => simp [run, ha, process, h]
 
 theorem run_eq_spec (i : Input) (h : nativeCheck i = true) : (run i).pass = spec i := by
   simp only [run_native i h, verifyIdentities_eq leafIndex_zero, spec_eq_specOf]
@@ -167,14 +179,15 @@ theorem revocation_only_plugin_is_native (i : Input) (b : Bool)
 
 /-- ... and a plugin that declares it (exactly) decides -/
 theorem plugin_with_identity_capability_decides (i : Input) (p : Plugin) (h : i.plugin = some p)
-    (hc : capTrustedIdentity ∈ p.capabilities) : (run i).pass = p.identitySuccess := by
+    (hc : capTrustedIdentity ∈ p.capabilities) (s : Statement) (ha : applicable i = some s) :
+    (run i).pass = p.identitySuccess := by
   have h1 : capTrustedIdentity ∈ pluginCaps p := by simp [pluginCaps, hc]
   have h3 : (pluginCaps p).isEmpty = false := by
     cases hc' : pluginCaps p with
     | nil => rw [hc'] at h1; simp at h1
     | cons a r => rfl
   have : nativeCheck i = false := by simp [nativeCheck, h, h1]
-  simp [run, this, pluginVerdict, h, h3]
+  simp [run, ha, process, this, pluginVerdict, h, h3]
 
 /-- a plugin none of whose declared capabilities is spelled exactly is refused -/
 theorem plugin_without_capability_is_refused (i : Input) (h : refused i = true) : (run i).pass = false := by
@@ -184,7 +197,9 @@ theorem plugin_without_capability_is_refused (i : Input) (h : refused i = true) 
   | some p =>
     rw [hp] at h
     simp only at h
-    simp [run, nativeCheck, pluginVerdict, hp, h]
+    cases ha : applicable i with
+    | none => simp [run, ha]
+    | some s => simp [run, ha, process, nativeCheck, pluginVerdict, hp, h]
 
 theorem mem_all_contains {l attrs : List Attr} :
     l.all (fun a => attrs.contains a) = true ↔ ∀ a ∈ l, a ∈ attrs := by
@@ -208,7 +223,7 @@ theorem identity_pass_sound (ids : List Identity) (chain : List DN) (hnw : NoWil
     ∃ leaf rest, chain = leaf :: rest ∧ validDN leaf.text leaf.rdns = true ∧
       ∃ id ∈ ids, usable id = true ∧ ∀ a ∈ attrsOf id.rdns, a ∈ attrsOf leaf.rdns := by
   rw [verifyIdentities_eq leafIndex_zero] at h
-  simp only [specOf, spec, anyWild, anyMalformed, anyX509, leafValid, anyWithinLeaf, leafAttrs,
+  simp only [specOf, spec, identities_ociInput, chain_ociInput, anyWild, anyMalformed, anyX509, leafValid, anyWithinLeaf, leafAttrs,
     leafOf, anyWild_false hnw, Bool.false_or, Bool.and_eq_true] at h
   obtain ⟨⟨⟨_, _⟩, hv⟩, hw⟩ := h
   cases chain with
@@ -236,14 +251,14 @@ theorem identity_pass_complete (ids : List Identity) (leaf : DN) (rest : List DN
   have hw : ids.any (fun id => within id (attrsOf leaf.rdns)) = true := by
     rw [List.any_eq_true]
     exact ⟨id, hid, by simp only [within, hu, Bool.true_and]; exact mem_all_contains.2 hall⟩
-  simp [specOf, spec, anyWild, anyMalformed, anyX509, leafValid, anyWithinLeaf, leafAttrs, leafOf,
+  simp [specOf, spec, identities_ociInput, chain_ociInput, anyWild, anyMalformed, anyX509, leafValid, anyWithinLeaf, leafAttrs, leafOf,
     hmal, hx, hv, hw]
 
 /-- **leaf only**: the result is a function of the identity list and the *head* of the chain -
 intermediate and root subjects cannot influence it. -/
 theorem leaf_only (ids : List Identity) (chain chain' : List DN) (h : chain.head? = chain'.head?) :
     verifyIdentities ids chain = verifyIdentities ids chain' := by
-  simp only [verifyIdentities_eq leafIndex_zero, specOf, spec, anyWild, anyMalformed, anyX509,
+  simp only [verifyIdentities_eq leafIndex_zero, specOf, spec, identities_ociInput, chain_ociInput, anyWild, anyMalformed, anyX509,
     leafValid, anyWithinLeaf, leafAttrs, leafOf, h]
 
 theorem leaf_only_cons (ids : List Identity) (leaf : DN) (cas cas' : List DN) :
@@ -280,7 +295,7 @@ theorem fail_closed (ids : List Identity) (chain : List DN) (hnw : NoWildcard id
          chain = [] ∨ (∃ leaf rest, chain = leaf :: rest ∧ validDN leaf.text leaf.rdns = false)) :
     verifyIdentities ids chain = false := by
   rw [verifyIdentities_eq leafIndex_zero]
-  simp only [specOf, spec, anyWild, anyMalformed, anyX509, leafValid, anyWithinLeaf, leafAttrs,
+  simp only [specOf, spec, identities_ociInput, chain_ociInput, anyWild, anyMalformed, anyX509, leafValid, anyWithinLeaf, leafAttrs,
     leafOf, anyWild_false hnw, Bool.false_or]
   rcases h with ⟨id, hid, hm⟩ | h | h | ⟨leaf, rest, e, hv⟩
   · have : ids.any malformed = true := by rw [List.any_eq_true]; exact ⟨id, hid, hm⟩
@@ -348,7 +363,7 @@ equivalent one, does not change the result -/
 theorem verify_congr (pre post : List Identity) (a b : Identity) (leaf leaf' : DN) (cas cas' : List DN)
     (hid : IdEquiv a b) (hdn : DNEquiv leaf leaf') :
     verifyIdentities (pre ++ a :: post) (leaf :: cas) = verifyIdentities (pre ++ b :: post) (leaf' :: cas') := by
-  simp only [verifyIdentities_eq leafIndex_zero, specOf, spec, anyWild, anyMalformed, anyX509,
+  simp only [verifyIdentities_eq leafIndex_zero, specOf, spec, identities_ociInput, chain_ociInput, anyWild, anyMalformed, anyX509,
     leafValid, anyWithinLeaf, leafAttrs, leafOf, List.head?_cons, List.any_append, List.any_cons,
     hid.wild, hid.malformed, hid.x509, hdn.valid]
   have hattrs : ∀ x, x ∈ (if validDN leaf'.text leaf'.rdns = true then attrsOf leaf.rdns else []) ↔
@@ -435,7 +450,7 @@ theorem order_invariant_identity (pre post : List Identity) (a b : Identity) (ch
     · rw [hra, hrb]; exact attrs_perm hp
   cases chain with
   | nil =>
-    simp only [verifyIdentities_eq leafIndex_zero, specOf, spec, anyWild, anyMalformed, anyX509,
+    simp only [verifyIdentities_eq leafIndex_zero, specOf, spec, identities_ociInput, chain_ociInput, anyWild, anyMalformed, anyX509,
       leafValid, anyWithinLeaf, leafAttrs, leafOf, List.head?_nil, List.any_append, List.any_cons,
       hid.wild, hid.malformed, hid.x509]
     simp
@@ -497,7 +512,7 @@ theorem alias_invariant_identity (pre post : List Identity) (a b : Identity) (ch
     · rw [hra, hrb]; intro x; simp only [attrsOf, flat_alias h]
   cases chain with
   | nil =>
-    simp only [verifyIdentities_eq leafIndex_zero, specOf, spec, anyWild, anyMalformed, anyX509,
+    simp only [verifyIdentities_eq leafIndex_zero, specOf, spec, identities_ociInput, chain_ociInput, anyWild, anyMalformed, anyX509,
       leafValid, anyWithinLeaf, leafAttrs, leafOf, List.head?_nil, List.any_append, List.any_cons,
       hid.wild, hid.malformed, hid.x509]
     simp
@@ -597,7 +612,17 @@ theorem model_holds_plugin (i : Input) : (pluginClauses i (run i)).holds = true 
   | false =>
     cases hn : nativeCheck i with
     | true => rfl
-    | false => simp [run, hn]
+    | false =>
+      cases ha : applicable i with
+      | none => simp
+      | some s => simp [run, ha, process, hn]
+
+theorem model_holds_statement (i : Input) : (statementClauses i (run i)).holds = true := by
+  unfold statementClauses
+  simp only [Clauses.holds_cons, Clauses.holds_nil, Bool.and_true]
+  cases ha : applicable i with
+  | none => simp [run, ha]
+  | some s => simp
 
 /-- **C04, the whole property**: every clause of `Holds` is true of the model's behaviour, for
 all identity lists, chains and plugins, under the (decidable, per-case checked) assumption `wf`
@@ -605,7 +630,7 @@ on the trusted rendering: an interpretable leaf subject shows only attributes th
 was minted with. `wf` is itself the last clause, so the driver evaluates it on every case. -/
 theorem model_holds (i : Input) (hwf : wf i = true) : Holds i (run i) = true := by
   unfold Holds clauses
-  rw [holds_append, holds_append, holds_guarded, holds_append, model_holds_plugin]
+  rw [holds_append, holds_append, holds_append, holds_guarded, holds_append, model_holds_plugin, model_holds_statement]
   have ha : (assumptionClauses i).holds = true := by
     simp [assumptionClauses, Clauses.holds_cons, Clauses.holds_nil, hwf]
   rw [ha]
@@ -641,42 +666,42 @@ def exId (v : Text) (rs : List (List Attr)) : Identity := { raw := pfx ++ v, rdn
 def minted : List Attr := [(CN, leafCN), (O, org), (ST, wa), (C, us)]
 
 -- a permuted subset of the leaf subject written with the S alias passes
-example : run { identities := [exId ['a'] [[(C, us)], [(S, wa)], [(O, org)]]], chain := exChain, minted := minted, plugin := none }
+example : run (ociInput [exId ['a'] [[(C, us)], [(S, wa)], [(O, org)]]] exChain minted none)
     = { pass := true } := by decide
 -- the root's subject does not
-example : run { identities := [exId ['a'] [[(CN, rootCN)], [(O, org)], [(ST, wa)], [(C, us)]]], chain := exChain, minted := minted, plugin := none }
+example : run (ociInput [exId ['a'] [[(CN, rootCN)], [(O, org)], [(ST, wa)], [(C, us)]]] exChain minted none)
     = { pass := false } := by decide
 -- a superset of the leaf subject does not
-example : run { identities := [exId ['a'] [[(CN, leafCN)], [(O, org)], [(ST, wa)], [(C, us)], [(['L'], [])]]], chain := exChain, minted := minted, plugin := none }
+example : run (ociInput [exId ['a'] [[(CN, leafCN)], [(O, org)], [(ST, wa)], [(C, us)], [(['L'], [])]]] exChain minted none)
     = { pass := false } := by decide
 -- the lone wildcard does
-example : run { identities := [{ raw := ['*'], rdns := none }], chain := exChain, minted := minted, plugin := none }
+example : run (ociInput [{ raw := ['*'], rdns := none }] exChain minted none)
     = { pass := true } := by decide
 -- a list without any x509.subject identity does not
-example : run { identities := [{ raw := ['a', ':', 'b'], rdns := none }], chain := exChain, minted := minted, plugin := none }
+example : run (ociInput [{ raw := ['a', ':', 'b'], rdns := none }] exChain minted none)
     = { pass := false } := by decide
 -- `Holds` rejects a wrong observation: passing on the strength of the root's subject
-example : Holds { identities := [exId ['a'] [[(CN, rootCN)], [(O, org)], [(ST, wa)], [(C, us)]]], chain := exChain, minted := minted, plugin := none }
+example : Holds (ociInput [exId ['a'] [[(CN, rootCN)], [(O, org)], [(ST, wa)], [(C, us)]]] exChain minted none)
     { pass := true } = false := by decide
 -- ... and failing although a listed identity is within the leaf subject
-example : Holds { identities := [exId ['a'] [[(C, us)], [(ST, wa)], [(O, org)]]], chain := exChain, minted := minted, plugin := none }
+example : Holds (ociInput [exId ['a'] [[(C, us)], [(ST, wa)], [(O, org)]]] exChain minted none)
     { pass := false } = false := by decide
-example : Holds { identities := [exId ['a'] [[(C, us)], [(ST, wa)], [(O, org)]]], chain := exChain, minted := minted, plugin := none }
+example : Holds (ociInput [exId ['a'] [[(C, us)], [(ST, wa)], [(O, org)]]] exChain minted none)
     { pass := true } = true := by decide
-example : wf { identities := [], chain := exChain, minted := minted, plugin := none } = true := by decide
+example : wf (ociInput [] exChain minted none) = true := by decide
 -- a revocation-only plugin changes nothing: the root's subject still does not pass ...
-example : run { identities := [exId ['a'] [[(CN, rootCN)], [(O, org)], [(ST, wa)], [(C, us)]]], chain := exChain, minted := minted, plugin := some { capabilities := [capRevocationCheck], identitySuccess := true } } = { pass := false } := by decide
+example : run (ociInput [exId ['a'] [[(CN, rootCN)], [(O, org)], [(ST, wa)], [(C, us)]]] exChain minted (some { capabilities := [capRevocationCheck], identitySuccess := true })) = { pass := false } := by decide
 -- ... and `Holds` rejects an implementation that lets it pass
-example : Holds { identities := [exId ['a'] [[(CN, rootCN)], [(O, org)], [(ST, wa)], [(C, us)]]], chain := exChain, minted := minted, plugin := some { capabilities := [capRevocationCheck], identitySuccess := true } } { pass := true } = false := by decide
+example : Holds (ociInput [exId ['a'] [[(CN, rootCN)], [(O, org)], [(ST, wa)], [(C, us)]]] exChain minted (some { capabilities := [capRevocationCheck], identitySuccess := true })) { pass := true } = false := by decide
 -- a plugin owning the trusted-identity capability decides
-example : run { identities := [exId ['a'] [[(CN, rootCN)], [(O, org)], [(ST, wa)], [(C, us)]]], chain := exChain, minted := minted, plugin := some { capabilities := [capTrustedIdentity, capRevocationCheck], identitySuccess := true } } = { pass := true } := by decide
-example : Holds { identities := [{ raw := ['*'], rdns := none }], chain := exChain, minted := minted, plugin := some { capabilities := [capTrustedIdentity], identitySuccess := false } } { pass := true } = false := by decide
+example : run (ociInput [exId ['a'] [[(CN, rootCN)], [(O, org)], [(ST, wa)], [(C, us)]]] exChain minted (some { capabilities := [capTrustedIdentity, capRevocationCheck], identitySuccess := true })) = { pass := true } := by decide
+example : Holds (ociInput [{ raw := ['*'], rdns := none }] exChain minted (some { capabilities := [capTrustedIdentity], identitySuccess := false })) { pass := true } = false := by decide
 
 -- another letter case is another string: with the revocation capability next to it the check stays native ...
-example : run { identities := [exId ['a'] [[(CN, rootCN)], [(O, org)], [(ST, wa)], [(C, us)]]], chain := exChain, minted := minted, plugin := some { capabilities := [capTrustedIdentity.map Char.toLower, capRevocationCheck], identitySuccess := true } } = { pass := false } := by decide
-example : Holds { identities := [exId ['a'] [[(CN, rootCN)], [(O, org)], [(ST, wa)], [(C, us)]]], chain := exChain, minted := minted, plugin := some { capabilities := [capTrustedIdentity.map Char.toLower, capRevocationCheck], identitySuccess := true } } { pass := true } = false := by decide
+example : run (ociInput [exId ['a'] [[(CN, rootCN)], [(O, org)], [(ST, wa)], [(C, us)]]] exChain minted (some { capabilities := [capTrustedIdentity.map Char.toLower, capRevocationCheck], identitySuccess := true })) = { pass := false } := by decide
+example : Holds (ociInput [exId ['a'] [[(CN, rootCN)], [(O, org)], [(ST, wa)], [(C, us)]]] exChain minted (some { capabilities := [capTrustedIdentity.map Char.toLower, capRevocationCheck], identitySuccess := true })) { pass := true } = false := by decide
 -- ... and alone it is no verification capability at all: refused
-example : run { identities := [{ raw := ['*'], rdns := none }], chain := exChain, minted := minted, plugin := some { capabilities := [capTrustedIdentity.map Char.toLower], identitySuccess := true } } = { pass := false } := by decide
+example : run (ociInput [{ raw := ['*'], rdns := none }] exChain minted (some { capabilities := [capTrustedIdentity.map Char.toLower], identitySuccess := true })) = { pass := false } := by decide
 
 end examples
 
